@@ -18,7 +18,7 @@ import (
 
 // ---- C07: mkdir never escapes the target directory and validates names first
 
-var c07Names = []string{"x", "..", ".", "a/b", "/abs", "../x", "x/..", "../../y"}
+var c07Names = []string{"x", "..", ".", "a/b", "/abs", "../x", "x/..", "../../y", "abs", "abs/"} // "abs" is the valid twin of "/abs" and "abs/"
 
 func validElement(n string) bool {
 	return n != "" && n != "." && n != ".." && !strings.Contains(n, "/")
@@ -125,6 +125,17 @@ func init() {
 							hostile = true
 						}
 					}
+					for _, x := range t {
+						if x == 8 {
+							// "abs" alone is a valid name: hostile only together with one of the others
+						}
+					}
+					hostile = false
+					for _, x := range t {
+						if x != 0 && x != 8 {
+							hostile = true
+						}
+					}
 					if !hostile {
 						return
 					}
@@ -152,6 +163,36 @@ func init() {
 					}
 				})
 			})
+		}
+	}
+	// wide nodes: one hostile child at every position among k valid siblings (k up to 40), as child of the root and
+	// as child of an inner node
+	wide := props["C07"]
+	props["C07"] = func(c *rep.Ctx) {
+		wide(c)
+		for _, k := range []int{5, 9, 10, 16, 17, 31, 32, 33, 40} {
+			for pos := 0; pos < k; pos++ {
+				if !c.Take() || c.Expired() {
+					continue
+				}
+				for _, h := range []string{"a/b", "..", "../../y"} {
+					d := []int{1, 2}
+					names := []string{"r", "inner"}
+					for i := 0; i < k; i++ {
+						d = append(d, 3)
+						if i == pos {
+							names = append(names, h)
+						} else {
+							names = append(names, fmt.Sprintf("c%02d", i))
+						}
+					}
+					c.StateN(1)
+					c.Inc("wide_cases")
+					for _, rt := range []string{"md", "root", "md-dry-output"} {
+						c07Case(c, c07Replay{"c07", d, names, rt, nil})
+					}
+				}
+			}
 		}
 	}
 	replayers["c07"] = func(raw json.RawMessage) bool {
